@@ -73,6 +73,7 @@ const char *okind(int k) { static const char *n[] = {"output", "ST::bad_format",
 
 template <class F> Outcome observe(F &&f) {
     Outcome o;
+    verif::pre_errno();
     try {
         ST::string s = f();
         o.bytes.assign(s.c_str(), s.size());
@@ -257,6 +258,7 @@ const char *entry_name(int e) {
 // the byte sinks: what a FILE* / a narrow std::ostream received
 template <class F> Outcome observe_sink(F &&f) {
     Outcome o;
+    verif::pre_errno();
     try { f(o.bytes); }
     catch (const ST::bad_format &e) { o.kind = 1; o.what = e.what(); }
     catch (const ST::unicode_error &e) { o.kind = 4; o.what = e.what(); }
